@@ -1,7 +1,8 @@
 (* C08: the equivalence "diagonal forest condition <=> the inactive cells are
    connected" on independent patterns, for all grids with h, w >= 2 and
    h * w <= B, from a kernel computation over all patterns of all such shapes
-   (diag_equiv_from_check), and the instance B = 12 (diag_equiv_12).  The
+   (diag_equiv_from_check); the instance actually used (B = 16, enumeration
+   restricted to independent patterns) is in NotAdjBoundedIndep.v.  The
    unbounded statement is NotAdj.diag_equiv_statement and is not proved. *)
 From Coq Require Import ZArith List Bool Arith Lia.
 From Cspuz Require Import Graph.GraphModel Graph.ReachProofs Graph.Avc Graph.AvcProofs
@@ -124,11 +125,3 @@ Proof.
     apply spec_diag_b_spec. rewrite Hchk. apply connected_b_spec; [exact Hwf|].
     apply (connected_ext_below _ (inactive act)); assumption.
 Qed.
-
-Lemma diag_equiv_check_12 : diag_equiv_check 12 = true.
-Proof. vm_compute. reflexivity. Qed.
-
-Theorem diag_equiv_12 : forall h w act, 2 <= h -> 2 <= w -> h * w <= 12 ->
-  independent (grid_graph h w) act ->
-  (spec_diag h w act <-> connected (grid_graph h w) (inactive act)).
-Proof. exact (diag_equiv_from_check 12 diag_equiv_check_12). Qed.
